@@ -4,7 +4,9 @@ mod procstream;
 
 fn main() {
     let args = vh_common::Args::parse();
-    vh_common::quiet_panics();
+    if std::env::var_os("VH_LOUD").is_none() {
+        vh_common::quiet_panics();
+    }
     match args.module.as_str() {
         "orderer" => orderer::run(&args),
         "procstream" => procstream::run(&args),
